@@ -378,6 +378,60 @@ def alias_established(P, R, rule='C15.MPT.7'):
                  key='alias-established:%s' % f.name)
     R.floor(rule, 2, 'stores of a text into a string node')
 
+def defaults_at_registration(P, R, rule='C15.MPT.8'):
+    """A registration applies the default it records: every conf_register_* function that records a default in a
+    member def_X also establishes the live member X before it returns (a store to it, a vector copy into it, or the
+    refresh function on the node).  Otherwise a setting registered after the file was read has no value until the next
+    reload, and what the consumer sees depends on when it registered."""
+    unit = P.need_fn('conf_read').unit
+    refresh = 'conf_parse_string_value'
+    n = 0
+    for f in P.unit_fns(unit):
+        if not f.name.startswith('conf_register_'):
+            continue
+        recorded = {}
+        for s in f.sites():
+            ev = s.ev
+            cands = []
+            if ev['k'] == 'store':
+                cands.append(ev.get('lhs'))
+            elif ev['k'] == 'call' and ev['args'] and (ev.get('callee') or '').startswith(('string_vector_', 'const_string_vector_')):
+                a = ev['args'][0]
+                cands.append(a.get('e') if isinstance(a, dict) and a.get('k') == 'un' and a.get('op') == '&' else a)
+            for lv in cands:
+                if isinstance(lv, dict) and lv.get('k') == 'mem' and str(lv.get('field', '')).startswith('def_'):
+                    recorded.setdefault((sx(lv.get('base')), lv['field'][4:]), s)
+        for (base, live), s in sorted(recorded.items()):
+            def settles(t, base=base, live=live):
+                e2 = t.ev
+                if e2['k'] == 'call' and e2.get('callee') == refresh and e2['args'] and sx(e2['args'][0]) == base:
+                    return True
+                if e2['k'] == 'store':
+                    l2 = e2.get('lhs') or {}
+                    return l2.get('k') == 'mem' and l2.get('field') == live and sx(l2.get('base')) == base
+                if e2['k'] == 'call' and e2['args'] and (e2.get('callee') or '') in ('string_vector_copy',):
+                    a = e2['args'][0]
+                    a = a.get('e') if isinstance(a, dict) and a.get('k') == 'un' and a.get('op') == '&' else a
+                    return isinstance(a, dict) and a.get('k') == 'mem' and a.get('field') == live and sx(a.get('base')) == base
+                return False
+            # the live member may be kept when it already has a value: the side of a test that says "set" settles it too
+            def on_event(st, t):
+                return True if settles(t) else st
+
+            def on_edge(st, e, base=base, live=live):
+                r = e.rel() if e.cond is not None and e.label not in ('case', 'default') else None
+                if r and const_of(r[2]) == 0 and r[1] in ('!=', '>'):
+                    for x in walk(r[0]):
+                        if isinstance(x, dict) and x.get('k') == 'mem' and x.get('field') == live and sx(x.get('base')) == base:
+                            return True
+                return st
+            _, at_exit, _, _ = f.forward(False, on_event, on_edge)
+            ok = bool(at_exit) and all(at_exit)
+            n += 1
+            R.ob(rule, ok, s, '%s records the default def_%s of %s and establishes the live %s before returning (unconditionally, or unless it already has a value)' % (f.name, live, base, live),
+                 key='default-applied:%s:%s' % (f.name, live))
+    R.floor(rule, 5, 'defaults recorded by registration functions')
+
 def zero_defaults(P, R, rule='C15.TAB.2'):
     """Nodes made by the parser are zero-filled and never given a subtype (only registration assigns one): the
     enumerator that means "plain text" must therefore be 0, or a setting nobody registered is parsed as a boolean /
@@ -686,6 +740,7 @@ def run(P, R, tier):
     capacities(P, R)
     zero_defaults(P, R)
     alias_established(P, R)
+    defaults_at_registration(P, R)
     rules.vector_walks(P, R, 'C15.BND.2', units=('src/config.c', 'src/common.c'))
     R.floor('C15.BND.2', 3, 'vector walks in the configuration code')
     exhaustive(P, R)
